@@ -20,17 +20,17 @@ use crate::{
     sched, Args,
 };
 
-struct Chain {
-    w: World,
+pub(super) struct Chain {
+    pub(super) w: World,
     /// the canonical chain
-    blocks: Vec<v2::FinalBlock>,
+    pub(super) blocks: Vec<v2::FinalBlock>,
     /// a conflicting, validly certified block for number 1
     conflicting1: v2::FinalBlock,
     /// block 2 with a certificate that does not verify
-    invalid2: v2::FinalBlock,
+    pub(super) invalid2: v2::FinalBlock,
 }
 
-fn chain(seed: u64, len: usize) -> Chain {
+pub(super) fn chain(seed: u64, len: usize) -> Chain {
     let c = util::committee(seed, &[1, 1, 1]);
     let w = World { c, proposals: vec![Payload(vec![1])], invalid_payload: Payload(vec![0xBA]) };
     let full = 0b111u32;
@@ -663,6 +663,9 @@ pub fn run(args: &Args) -> Report {
     let chn = chain(args.seed, 5);
     if let Some(r) = &args.replay {
         let rp = &r["replay"];
+        if super::gossipnet::replay_fetch(&mut rep, args.seed, rp, &["foreign_block_stored"]) {
+            return rep;
+        }
         let sc = rp["config"]["scenario"].as_u64().unwrap_or(1) as u32;
         let devs: core::Deviations = rp["deviations"].as_array().map(|a| a.iter().map(|p| (p[0].as_u64().unwrap() as u32, p[1].as_u64().unwrap() as u32)).collect()).unwrap_or_default();
         let (lg, lb) = long_chain(args.seed);
@@ -704,7 +707,10 @@ pub fn run(args: &Args) -> Report {
     if rep.violations.is_empty() && (prunes == 0 || restarts_lossy == 0 || storage_reads == 0) {
         rep.machinery_errors.push(format!("vacuous: prunes {prunes}, restarts that lost queued blocks {restarts_lossy}, reads served by storage {storage_reads}"));
     }
+    // blocks received from peers over real gossip connections (gossip/runner.rs): only certified blocks of the chain are stored
+    let net_cov = super::gossipnet::report_fetch(&mut rep, args.seed, &["foreign_block_stored"], &|s| ["honest_peer", "wrong_block_number_then_other_peer", "bad_certificate_then_other_peer"].contains(&s.name));
     rep.coverage = json!({
+        "blocks_from_peers_part": net_cov,
         "states": execs, "transitions": points, "traces_validated_against_impl": execs,
         "evaluations": execs, "distinct_nontrivial": distinct,
         "samples": [
